@@ -1,4 +1,6 @@
 // C16 — CRC-16/ARC against the bit-serial reference.
+#include "shims/crc_callers.h"
+#include <sys/mman.h>
 #include "support/vp.hpp"
 #include "support/ufw.hpp"
 #include "model/crc16.hpp"
@@ -166,6 +168,23 @@ static void preemption_sweep() {
 #else
 static void preemption_sweep() {}
 #endif
+// 2^31 words (4 GiB of untouched zero pages) through C callers whose count is a 32-bit variable, an unsigned sum or a literal: equal to the
+// octet variant over the same 2^32 octets (which takes its count as a size_t). Two 4 GiB passes per state: optimised build, thorough tier only.
+static void giant_counts() {
+    size_t bytes = (size_t)1 << 32;
+    void *mem = mmap(nullptr, bytes, PROT_READ, MAP_PRIVATE | MAP_ANONYMOUS | MAP_NORESERVE, -1, 0);
+    if (mem == MAP_FAILED) { vp::stats().notes["giant_counts"] = "4 GiB of address space not available: phase skipped"; return; }
+    const uint16_t *w = (const uint16_t *)mem;
+    std::string rep = "giant-counts\n";
+    vp::CaseScope scope([rep] { return rep; });
+    uint16_t want = ufw_crc16_arc(0x1d0f, mem, bytes), want0 = ufw_crc16_arc(CRC16_ARC_INITIAL, mem, bytes);
+    struct { const char *name; uint16_t got, want; } r[4] = {
+        {"uint32_t count", vp_crc_u16_count32(0x1d0f, w, 0x80000000u), want}, {"unsigned sum", vp_crc_u16_unsigned(0x1d0f, w, 0x7fffffffu, 1u), want},
+        {"literal 0x80000000", vp_crc_u16_literal31(0x1d0f, w), want}, {"buffer variant, uint32_t count", vp_crc_buffer_u16_count32(w, 0x80000000u), want0}};
+    for (auto &x : r) { vp::count(); vp::nontrivial(vp::fnv(x.name, strlen(x.name), 16)); vp::cls("2^31-words-with-a-count-narrower-than-size_t");
+        if (x.got != x.want) vp::fail(std::string("giant-count:") + x.name, vp::fmt("word checksum of 2^31 words called with a %s returns %04x, the octet variant over the same 2^32 octets %04x", x.name, x.got, x.want), rep); }
+    munmap(mem, bytes);
+}
 static void run() {
     auto &a = vp::args();
     vp::Rng rng(a.seed * 7919 + a.shard);
@@ -173,6 +192,7 @@ static void run() {
 #ifdef VP_FAST
     fast = true;
 #endif
+    if (fast && a.thorough() && a.shard == 1 % a.nshards) giant_counts();
     if (!fast && a.shard == 0 && !vp::vg().on) preemption_sweep();   // first: the library has not been called in this process yet
     if (!fast && a.shard == a.nshards - 1 && !vp::vg().on) interrupt_stress(a.thorough() ? 6000 : 1200);
     if (!fast) {
@@ -284,6 +304,7 @@ static void run() {
     }
 }
 static bool replay(const std::string &text) {
+    if (text.rfind("giant-counts", 0) == 0) { giant_counts(); return vp::stats().failures.empty(); }
     auto w = vp::split(vp::lines(text).at(0));
     if (!w.empty() && w[0] == "interrupt-stress") return interrupt_stress(3000);
     if (!w.empty() && w[0] == "preemption-sweep") { preemption_sweep(); return vp::stats().failures.empty(); }
